@@ -1504,6 +1504,99 @@ def case_gamit_sta_gipsyx(run: Run, rng):
                 return
 
 
+
+# -------------------------------------------------------------------------------------------------
+# csv_: the behaviours of pandas.read_csv the parser relies on (Model/WriterCsv.lean P1-P10), probed on the real pandas
+# through the library's parser, and the Lean parser model against the parser on every written file
+
+CSV_PROBES = [
+    ("P1", "a,b;c\n1,2;3\n"), ("P1", 'a\n"x,y"\n'),
+    ("P2", "a\n1\n-2\n+3\n"), ("P2", "a\n007\n10\n"), ("P2", "s\n123\n456\n"),
+    ("P3", "a\n1.5\n2\nnan\n"), ("P3", "a\n-0.0\n1e3\n.5\n5.\n"), ("P3", "a,b\n1,x\nnan,y\n"),
+    ("P4", "a\nx\n1\nNA\n"), ("P4", "d\n2015-10-05 18:07:24\n"),
+    ("P5", "a,b\n,1\nx,2\n"), ("P5", "a,b\nNaN,1\nnull,2.5\n<NA>,3\n7,4\n"),
+    ("P6", "a,b\nnan,1\nnan,2\n"), ("P6", "a,b\n"),
+    ("P7", "a,b\n  x , 1 \n y,2\n"), ("P7", "a\n1 \n2\n"),
+    ("P8", "a,b\n\n# c\n1,2 # t\n   \n3,4\n"),
+    ("P9", "a,b\n1\n2,3\n"), ("P9", "a,b\n1,2,3\n"),
+    ("P10", "a\n1\n2"), ("P10", "a,b\r\n1,2\r\n"),
+    ("outside", "a\nTrue\nFalse\n"),
+]
+
+
+def csv_real(path: Path):
+    """`self.data` of the csv_ parser, canonical: {name: (kind, values)}"""
+    from midgard import parsers
+
+    with quiet():
+        try:
+            data = parsers.parse_file("csv_", path).data
+        except Exception as e:
+            return f"!!{type(e).__name__}"
+    out = {}
+    for k, v in data.items():
+        a = np.asarray(v)
+        if a.dtype.kind == "i":
+            out[k] = ("i", [int(x) for x in a])
+        elif a.dtype.kind == "f":
+            out[k] = ("f", [None if math.isnan(x) else float(x) for x in a])
+        elif a.dtype.kind == "U":
+            out[k] = ("s", [str(x) for x in a])
+        else:
+            out[k] = ("o", [])
+    return out
+
+
+def csv_model(ctx, text: str):
+    ans = ctx.driver.ask1(f"c17 csvparse {text.encode('utf-8').hex() or '.'}")
+    out = {}
+    if ans == "[]":
+        return out
+    for item in ans.split(";"):
+        name, col = item.split("=", 1)
+        name = common.unhex(name)
+        kind, vals = col[0], col[2:]
+        parts = vals.split("/") if vals != "" or kind == "s" else []
+        if kind == "i":
+            out[name] = ("i", [int(x) for x in parts])
+        elif kind == "f":
+            out[name] = ("f", [None if x == "nan" else float(Fraction(x.replace("d", "/"))) for x in parts])
+        elif kind == "s":
+            out[name] = ("s", ["" if x in (".", "") else bytes.fromhex(x).decode("utf-8") for x in parts])
+        else:
+            out[name] = ("o", [])
+    return out
+
+
+def csv_same(a, b) -> bool:
+    """the model holds the exact decimal; pandas' conversion is within the known 2^-44 (P3)"""
+    if isinstance(a, str) or isinstance(b, str) or list(a) != list(b):
+        return a == b
+    for k in a:
+        (ka, va), (kb, vb) = a[k], b[k]
+        if ka != kb or len(va) != len(vb):
+            return False
+        if ka == "f":
+            for x, y in zip(va, vb):
+                if (x is None) != (y is None) or (x is not None and abs(x - y) > abs(x) * 2.0 ** -44):
+                    return False
+        elif va != vb:
+            return False
+    return True
+
+
+def csv_probes(run) -> None:
+    ctx = run.ctx
+    for tag, text in CSV_PROBES:
+        fp = run.path("csv_probe")
+        with open(fp, "w", newline="") as f:
+            f.write(text)
+        impl, model = csv_real(fp), csv_model(ctx, text)
+        ctx.count(f"csv-pandas-probe:{tag}")
+        if not csv_same(model, impl):
+            ctx.disagree(f"pandas assumption {tag} of the csv_ parser model", {"probe": text}, model, impl)
+
+
 # -------------------------------------------------------------------------------------------------
 # CSV
 
@@ -1604,6 +1697,14 @@ def case_csv(run: Run, rng):
     ctx.count("csv-lines-cut", len(cut))
     if lines[0] != ",".join(want_fields):
         ctx.violate("csv_:header", f"header {lines[0]!r} for fields {list(want_fields)}", case)
+    # the csv_ parser against its Lean model (pandas behaviours P1-P10) on the written file
+    impl_csv, model_csv = csv_real(run.last_path), csv_model(ctx, text)
+    ctx.count("parser-model:csv_:written")
+    if not csv_same(model_csv, impl_csv):
+        badk = [k for k in (impl_csv if isinstance(impl_csv, dict) else {}) if not csv_same({k: model_csv.get(k)} if k in model_csv else {}, {k: impl_csv[k]})]
+        ctx.disagree("csv_ parser vs Lean parser model (written file)", {**case, "columns": badk[:4]},
+                     {k: (model_csv[k][0], model_csv[k][1][:4]) for k in badk[:2] if k in model_csv},
+                     impl_csv if isinstance(impl_csv, str) else {k: (impl_csv[k][0], impl_csv[k][1][:4]) for k in badk[:2]})
     # read-back
     with quiet():
         try:
@@ -1706,6 +1807,7 @@ def run(ctx: Ctx, prove: bool = True):
     try:
         r = Run(ctx, tmp)
         r.last_path = None
+        csv_probes(r)
         n = ctx.budget(640, 6800)
         dft = info["data_field_types"]
         for i in range(n):
